@@ -78,7 +78,7 @@ def run(ctx):
         for s in res["samples"][:3]:
             ctx.sample(s)
         ctx.extra.setdefault("diverged_to_other_allowed_outcome", 0)
-        ctx.extra["diverged_to_other_allowed_outcome"] += res["extra"]["diverged_to_other_allowed_outcome"]
+        ctx.extra["diverged_to_other_allowed_outcome"] += (res.get("extra") or {}).get("diverged_to_other_allowed_outcome", 0)
     ctx.traces += replayed
     ctx.extra.update({"behaviours_replayed": replayed, "command_sequences_with_several_allowed_outcomes": races,
                       "exhaustive": True,
